@@ -89,7 +89,7 @@ func c03Sizes(c *Ctx) {
 	}
 	fn := f.Function
 	b := ana.NewBuilder(c.P, fn)
-	acc := edgesMatching(b, "bin<==>(call<*>(p0), nil)")
+	acc := edgesMatching(b, "bin<==>(alt(call<*>(p0), ext#1(call<*>(p0)), ext#2(call<*>(p0))), nil)")
 	if len(acc) != 1 {
 		r.Undec("C03.entropy-sizes.anchor", c.P.Pos(fn.Pos()), "no single validator gate `validate(entropy) == nil` in EntropyToMnemonic")
 		return
@@ -109,7 +109,7 @@ func c03Sizes(c *Ctx) {
 		if errT.Is("nil") {
 			r.Check(exitMustPass(fn, e, plainEdges(acc)), "C03.entropy-sizes.gate", c.ipos(e.Instr), "success return only after the size validator returned nil")
 		} else {
-			_, ok := ana.Match("call<*>(p0)", errT)
+			_, ok := ana.Match("alt(call<*>(p0), ext#1(call<*>(p0)), ext#2(call<*>(p0)))", errT)
 			r.Check(ok && calleeOf(errT) == val && b.Of(e.Results[0], e.Instr).Is("nil"), "C03.entropy-sizes.error-propagated", c.ipos(e.Instr), "error return propagates the validator's error and returns no mnemonic: %s", short(errT.String(), 120))
 		}
 	}
@@ -129,7 +129,7 @@ func c03Sizes(c *Ctx) {
 			r.Viol("C03.entropy-sizes.no-panic", c.ipos(e.Instr), "explicit panic in the entropy validator")
 			continue
 		}
-		errT := vb.Of(e.Results[0], e.Instr)
+		errT := vb.Of(e.Results[len(e.Results)-1], e.Instr)
 		if !errT.Is("nil") {
 			g, _ := ana.Find("load(global<repo/pkg/bip39.ErrInvalidEntropySize>)", errT)
 			fs := ""
@@ -149,7 +149,7 @@ func c03Decode(c *Ctx) {
 	}
 	fn := f.Function
 	b := ana.NewBuilder(c.P, fn)
-	acc := edgesMatching(b, "bin<==>(call<*>(p0), nil)")
+	acc := edgesMatching(b, "bin<==>(alt(call<*>(p0), ext#1(call<*>(p0)), ext#2(call<*>(p0))), nil)")
 	if len(acc) != 1 {
 		r.Undec("C03.word-counts.anchor", c.P.Pos(fn.Pos()), "no single validator gate in MnemonicToEntropy")
 		return
@@ -190,7 +190,7 @@ func c03Decode(c *Ctx) {
 				r.Viol("C03.word-counts.no-panic", c.ipos(e.Instr), "explicit panic in the mnemonic validator")
 				continue
 			}
-			errT := vb.Of(e.Results[0], e.Instr)
+			errT := vb.Of(e.Results[len(e.Results)-1], e.Instr)
 			if errT.Is("nil") {
 				r.Check(e.Instr.Block() == wl.Exit || exitMustPass(val, e, []ana.Edge{{From: wl.Header, To: wl.Exit}}), "C03.word-counts.nil-after-loop", c.ipos(e.Instr), "nil is returned only after the word loop completed")
 			} else {
@@ -470,7 +470,7 @@ func c03Encode(c *Ctx) {
 				eb, okE := ana.Match("obj(alloc<math/big.Int>, call<(*math/big.Int).SetBytes>(self, p0), call<(*math/big.Int).Lsh>(self, self, conv<uint>($cs)), call<(*math/big.Int).Or>(self, self, "+c03Chk("p0", "$cs")+"), maybe(call<(*math/big.Int).Rsh>(self, self, 11)))", vb["$E"])
 				r.Check(okE, "C03.bit-layout.encode-assembly", c.ipos(st), "bigEntropy = SetBytes(entropy) << CS | checksum(entropy, CS), shifted right by 11 per word: %s", short(vb["$E"].String(), 400))
 				if okE {
-					_, okC := ana.Match("bin</>(bin<*>(len(p0), 8), 32)", eb["$cs"])
+					_, okC := ana.MatchX(c.P, "bin</>(bin<*>(len(p0), 8), 32)", eb["$cs"])
 					r.Check(okC, "C03.bit-layout.checksum-bits-encode", c.ipos(st), "CS = len(entropy)*8/32: %s", eb["$cs"])
 					// the Rsh comes after the And within an iteration
 					var andI, rshI ssa.Instruction
